@@ -971,3 +971,167 @@ def r12_simd_helpers(ck, P, rid='C10-R12'):
             ck.incomplete(R, '%s: %d result bits could not be traced (first: bit %d; untraced: %s)' % (what, len(diff), diff[0][0], sorted({(u.callee or u.op) for u in it.unknown})[:4])); continue
         i, g, e = [d for d in diff if d[1] != bitprov.TOP][0]
         ck.violation(R, fn, what, '%s: result bit %d comes from %s but widening by bit replication / narrowing to the top bits requires %s (%d bits differ): this helper no longer agrees with the general codec of the format' % (what, i, _ba(g), _ba(e), len(diff)), src)
+
+
+def r15_alphaless_fetchers_force_alpha(ck, P, rid='C10-R15'):
+    """T-BIT (structural half): the scanline readers an implementation registers for a format without alpha channel hand every pixel on
+    with alpha 0xff - each store into the output scanline, vector or scalar, head, body or tail."""
+    from . import tables
+    from .. import build, facts as _facts
+    R = ck.rule(rid, 'in every scanline reader registered (pixman_iter_info_t with _pixman_iter_init_bits_stride) for a format without alpha channel, each value written to the output scanline has its alpha byte(s) forced to 0xff: it is x | 0xff000000, a bitwise-or helper applied to a constant whose every 32-bit lane is 0xff000000, the result of a conversion helper all of whose returns are of that form, or an out-parameter of a widening helper called with its full-alpha flag set (the helper itself is C10-R12): absent alpha reads as 1 for every pixel of the scanline, including the pixels left over after the vector loop', floor=20)
+    names = tables.format_names(P)
+    masks = _sse2_masks(P)
+    progs = {}
+    def prog_for(u):
+        if u.name == 'pixman-mmx.c':
+            if 'S' not in progs:
+                progs['S'] = _facts.Program(build.library_facts('S', only={'pixman-mmx.c'}))
+            return progs['S']
+        return P
+    def lanes_ff(v, bits):
+        v &= (1 << bits) - 1
+        return bits >= 32 and all((v >> (32 * i)) & 0xff000000 == 0xff000000 for i in range(bits // 32))
+    def strip(f, o):
+        y = f.v(o)
+        while y is not None and y.op == 'bitcast':
+            o = y.a[0]; y = f.v(o)
+        return o
+    def const_mask(PP, f, o):
+        o = strip(f, o); y = f.v(o)
+        if o[0] == 'c':
+            return lanes_ff(int(o[1]), 32)
+        if y is None or y.op != 'load':
+            return False
+        a = y.a[0]
+        if a[0] == 'g' and a[1] in masks:
+            return lanes_ff(masks[a[1]], 128)
+        if a[0] == 'ce' and a[1] == 'getelementptr' and a[2][0][0] == 'g':
+            try:
+                u_, g_ = PP.global_(a[2][0][1], unit=f.unit.name)
+            except Exception:
+                return False
+            init = g_.get('init')
+            if isinstance(init, str):
+                import ast
+                try:
+                    init = ast.literal_eval(init)
+                except Exception:
+                    return False
+            idx = int(a[2][-1][1])
+            if g_.get('const') in (True, 'True') and isinstance(init, list) and idx < len(init):
+                return lanes_ff(int(init[idx]), 64)
+        return False
+    def is_or_helper(g):
+        ops = [x for x in g.insts() if x.op not in ('bitcast', 'ret', 'alloca', 'store', 'load')]
+        if len(g.params) != 2 or len(ops) != 1:
+            return False
+        x = ops[0]
+        return x.op == 'or' or (x.op == 'call' and isinstance(x.callee, str) and x.callee in ('llvm.x86.mmx.por',))
+    def forced(PP, f, o, depth=0, seen=None):
+        """(True, reason) | (False, reason)"""
+        seen = seen if seen is not None else set()
+        o = strip(f, o); y = f.v(o)
+        if depth > 8 or y is None:
+            return False, 'a value whose alpha is not established'
+        if y.i in seen:
+            return True, 'cycle'
+        seen.add(y.i)
+        if y.op == 'or':
+            if any(a[0] == 'c' and lanes_ff(int(a[1]), _vbits(y.ty) or 32) for a in y.a):
+                return True, 'or with 0xff000000'
+            for a in y.a:
+                if a[0] != 'c' and forced(PP, f, a, depth + 1, seen)[0]:
+                    return True, 'or with a forced value'
+            if any(const_mask(PP, f, a) for a in y.a):
+                return True, 'or with the alpha mask constant'
+            return False, 'an or that does not set the alpha byte'
+        if y.op in ('phi', 'select'):
+            for a in (y.a if y.op == 'phi' else y.a[1:]):
+                ok, why = forced(PP, f, a, depth + 1, seen)
+                if not ok:
+                    return False, why
+            return True, 'all incoming values forced'
+        if y.op == 'call' and y.callee:
+            g = PP.resolve(f, y.callee)
+            if g is None:
+                return False, 'the result of %s' % y.callee
+            if is_or_helper(g):
+                if any(const_mask(PP, f, a) for a in y.a) or any(forced(PP, f, a, depth + 1, seen)[0] for a in y.a):
+                    return True, '%s with the alpha mask' % y.callee
+                return False, '%s of operands none of which is the 0xff000000 mask' % y.callee
+            rets = [x for x in g.insts() if x.op == 'ret' and x.a]
+            if rets and all(forced(PP, g, x.a[0], depth + 1, set())[0] for x in rets):
+                return True, 'every return of %s sets the alpha byte' % y.callee
+            return False, 'the result of %s, which does not set the alpha byte' % y.callee
+        if y.op == 'load':
+            r = f.root(f.path(y.a[0]))
+            if r[0] == 'alloca':
+                for c in f.calls():
+                    if not c.callee or PP.resolve(f, c.callee) is None:
+                        continue
+                    if any(a[0] == 'v' and f.root(f.path(a)) == r for a in c.a):
+                        ints = [a for a in c.a if a[0] == 'c']
+                        if ints and all(int(a[1]) != 0 for a in ints):
+                            return True, 'out-parameter of %s called with its flag set' % c.callee
+                        return False, 'an out-parameter of %s called with a zero flag' % c.callee
+            return False, 'a pixel loaded and stored as it is'
+        return False, 'a value (%s) whose alpha is not established' % y.op
+    n = 0
+    done = set()
+    for u, g, t in tables.iter_tables(P):
+        for idx, e in enumerate(t):
+            fn = tables.fname(e['get_scanline'])
+            if not fn or tables.fname(e['initializer']) != '_pixman_iter_init_bits_stride' or e['format'] not in names:
+                continue
+            fi = tables.fmt_info(e['format'])
+            if fi['a'] != 0 or fi['type'] not in (2, 3) or (u.name, fn) in done:       # ARGB / ABGR colour formats without alpha bits
+                continue
+            done.add((u.name, fn))
+            PP = prog_for(u)
+            f = PP.units[u.name].functions.get(fn)
+            if f is None:
+                raise AnalysisBroken('%s: %s not found in %s' % (rid, fn, u.name))
+            def from_out(o, seen=None):
+                seen = set() if seen is None else seen
+                y = f.v(o)
+                if y is None or y.i in seen:
+                    return False
+                seen.add(y.i)
+                if y.op == 'load':
+                    return f.last_field(f.path(y.a[0])) == 'pixman_iter_t.buffer'
+                if y.op in ('getelementptr', 'bitcast'):
+                    return from_out(y.a[0], seen)
+                if y.op == 'phi':
+                    return any(from_out(a, seen) for a in y.a)
+                return False
+            writes = []
+            for x in f.insts():
+                if x.op == 'store' and from_out(x.a[1]):
+                    writes.append((x, x.a[0]))
+                elif x.op == 'call' and x.callee and any(a[0] == 'v' and from_out(a) for a in x.a):
+                    h = PP.resolve(f, x.callee)
+                    if h is None:
+                        continue
+                    vals = [a for a in x.a if not (a[0] == 'v' and from_out(a))]
+                    if len(vals) == 1:
+                        writes.append((x, vals[0]))
+            if not writes:
+                continue            # a reader that hands the image's own row on without touching it (destination no-op)
+            for x, v in writes:
+                n += 1; ck.saw(f)
+                ok, why = forced(PP, f, v)
+                where = '%s (%s): write at %s' % (fn, names[e['format']], x.loc())
+                if ok:
+                    ck.ok(R, where, why)
+                else:
+                    ck.violation(R, fn, 'scanline write at %s' % x.loc(), '%s is registered as the scanline reader for %s, a format without alpha channel, but at %s it writes %s: that pixel takes its alpha from the undefined x bits (or none at all) instead of reading as opaque, so the scanline reader disagrees with the single-pixel reader and with the other implementations' % (fn, names[e['format']], x.loc(), why), x.loc())
+    if n == 0:
+        raise AnalysisBroken('%s: no scanline reader for an alpha-less format found in the iterator tables' % rid)
+
+
+def _vbits(ty):
+    m = re.match(r'<(\d+) x i(\d+)>$', ty or '')
+    if m:
+        return int(m.group(1)) * int(m.group(2))
+    m = re.match(r'i(\d+)$', ty or '')
+    return int(m.group(1)) if m else None
